@@ -120,6 +120,13 @@ CHECKS["C17"] = (True, TV, "differential translation validation: module reloaded
     "compiled in memory. Then both modules are linked and run on the real VM on the same symbolic arguments and globals in one exploration; z3 decides per joint path that results, globals and failure kinds agree.",
     "Trusts z3, the proxy model, pickle. The in-memory module is the reference.", "DESIGN.md 5 (C17)")
 
+CHECKS["C16"] = (True, TV, "differential translation validation: program linked from separately compiled modules (nslc.py child processes, real FilesystemModuleLoader and Linker) vs the single-module compilation, on the real VM with symbolic arguments and globals (symx + z3); load counts, link-order independence and duplicate rejection as concrete gates",
+    "Six program bases of four functions (call chain with extra edges, exported helpers with a loop, overloads split over modules, vector arguments, module-private global state, a structure type shared across modules) "
+    "are partitioned in every way that needs no cyclic import into main + up to three libraries (chain, fork, diamond), with imports first / after the first function / interleaved; every module is compiled by nslc.py in "
+    "dependency order into a scratch directory and linked by the real Linker. Gates: each imported module is loaded exactly once (counting loader), the function table is the same for every order of AddModule over main and "
+    "two unrelated modules, duplicate functions/globals are rejected in either order. Then the linked program and the single-module build run on the real VM on the same symbolic inputs; z3 decides per joint path that they agree.",
+    "Trusts z3, the proxy model, pickle. Cyclic imports, more than four modules and importer access to imported globals are outside.", "DESIGN.md 5 (C16)")
+
 NOT_YET = "check not built yet in this round (see DESIGN.md status); nothing is claimed"
 NA = {
     "C18": "quantifies over hash seeds, processes and compilation histories: none of these is a value flowing through the code, so there is no assertion over symbolic variables for a solver to decide (DESIGN.md section 6)",
